@@ -131,27 +131,51 @@ theorem running_controller_not_cancelled {ops : List Op} {s : Sys} (h : Reachabl
 
 /-! ### the collector -/
 
-/-- The collector's decision: it asks to stop exactly the running watches (as GetWatches
-listed them) of type ComposedResource whose kind no XR references. -/
-theorem gc_decision (running : List Wid) (refs : List Nat) (w : Wid) :
-    w ∈ gcStop Cfg.fixed running refs ↔ w ∈ running ∧ w.ty = .composed ∧ w.gvk ∉ refs :=
-  gcStop_fixed_iff running refs w
+/-- The collector's decision, for EVERY list of XRs its List call can return — XRs that are
+being deleted (deletionTimestamp set, finalizer pending), paused, without a composition
+reference, not ready, not synced, with no references, with duplicate or malformed references,
+with references to several versions of one kind: it asks to stop exactly the running watches
+(as GetWatches listed them) of type ComposedResource whose kind none of these XRs references.
+An XR references a kind as long as it is listed, whatever state it is in. -/
+theorem gc_decision (running : List Wid) (xrs : List XR) (w : Wid) :
+    w ∈ gcStop Cfg.fixed running (refsOf xrs) ↔
+      w ∈ running ∧ w.ty = .composed ∧ ∀ x ∈ xrs, some w.gvk ∉ x.refs := by
+  rw [gcStop_fixed_iff]
+  simp only [Collectable, mem_refsOf, not_exists, not_and]
+
+/-- The decision depends on the XRs' references only: two lists of XRs that differ in any of
+the state fields (deleting, paused, composition reference, ready, synced) but carry the same
+references lead to the same decision (both code variants). -/
+theorem gc_decision_ignores_xr_state (cfg : Cfg) (running : List Wid) (xrs xrs' : List XR)
+    (h : xrs.map (·.refs) = xrs'.map (·.refs)) :
+    gcStop cfg running (refsOf xrs) = gcStop cfg running (refsOf xrs') := by
+  simp only [refsOf, h]
+
+/-- the case the property names: a watch whose kind only a deleting XR references is kept -/
+theorem gc_keeps_watch_referenced_by_deleting_xr (running : List Wid) (xrs : List XR) (x : XR) (w : Wid)
+    (hx : x ∈ xrs) (_hdel : x.deleting = true) (href : some w.gvk ∈ x.refs) :
+    w ∉ gcStop Cfg.fixed running (refsOf xrs) := by
+  intro hw
+  exact ((gc_decision running xrs w).1 hw).2.2 x hx href
 
 /-- Whatever a step of `GarbageCollectWatchesNow` removes from any controller's sources is a
-composed-resource watch on a kind none of the listed XRs references — under every
-interleaving with other calls. -/
+composed-resource watch on a kind none of the listed XRs (in whatever state) references —
+under every interleaving with other calls. -/
 theorem gc_only_unreferenced_composed {ops : List Op} {s s' : Sys} (h : Reachable Cfg.fixed ops s)
-    {i : Nat} {ch : Choice} {t : Thread} {n : Nat} {refs : List Nat}
-    (ht : s.threads[i]? = some t) (hop : t.op = .gc n refs) (hstep : step Cfg.fixed s i ch = some s')
+    {i : Nat} {ch : Choice} {t : Thread} {n : Nat} {xrs : List XR}
+    (ht : s.threads[i]? = some t) (hop : t.op = .gc n xrs) (hstep : step Cfg.fixed s i ch = some s')
     {cid : Nat} {w : Wid} {reg : Nat}
     (hbefore : aget w (srcsOf s cid) = some reg) (hafter : aget w (srcsOf s' cid) = none) :
-    w.ty = .composed ∧ w.gvk ∉ refs :=
-  gc_step_removes_collectable (GcInv_reachable h) ht hop hstep cid w reg hbefore hafter
+    w.ty = .composed ∧ ∀ x ∈ xrs, some w.gvk ∉ x.refs := by
+  have hc := gc_step_removes_collectable (GcInv_reachable h) ht hop hstep cid w reg hbefore hafter
+  refine ⟨hc.1, ?_⟩
+  intro x hx href
+  exact hc.2 ((mem_refsOf xrs w.gvk).2 ⟨x, hx, href⟩)
 
 /-- in particular it never stops the watch on the XRs or on composition revisions -/
 theorem gc_never_stops_xr_or_revision_watch {ops : List Op} {s s' : Sys} (h : Reachable Cfg.fixed ops s)
-    {i : Nat} {ch : Choice} {t : Thread} {n : Nat} {refs : List Nat}
-    (ht : s.threads[i]? = some t) (hop : t.op = .gc n refs) (hstep : step Cfg.fixed s i ch = some s')
+    {i : Nat} {ch : Choice} {t : Thread} {n : Nat} {xrs : List XR}
+    (ht : s.threads[i]? = some t) (hop : t.op = .gc n xrs) (hstep : step Cfg.fixed s i ch = some s')
     {cid : Nat} {w : Wid} {reg : Nat} (hw : w.ty = .xr ∨ w.ty = .rev ∨ w.ty = .claim)
     (hbefore : aget w (srcsOf s cid) = some reg) : aget w (srcsOf s' cid) ≠ none := by
   intro hafter
@@ -193,6 +217,8 @@ theorem restart_after_informer_loss {ops : List Op} {s : Sys} (h : Reachable Cfg
 /-! ### the breaks on the pinned commit (negation witnesses) -/
 
 def cW (g : Nat) : Wid := ⟨.composed, g⟩
+/-- a live, ready XR referencing the given kinds -/
+def xrLive (gs : List Nat) : XR := ⟨false, false, true, true, true, gs.map some⟩
 def rep (i k : Nat) : List (Nat × Choice) := List.replicate k (i, {})
 
 /-- D2, concurrent form: two StartWatches calls for the same watch; the second takes its
@@ -269,7 +295,7 @@ example : (runSched Cfg.fixed (init opsD12) (rep 0 3 ++ rep 1 2 ++ rep 2 5 ++ re
     (fun s => (s.regs, s.threads.map (·.pc))) = some ([], [.done .ok, .done .notRunning, .done .ok]) := by decide
 
 /-- D3: the collector of the pinned commit stops the XR and the CompositionRevision watch. -/
-def opsD3 : List Op := [.start 0, .startWatches 0 [⟨.xr, 0⟩, ⟨.rev, 1⟩, cW 1], .gc 0 [1]]
+def opsD3 : List Op := [.start 0, .startWatches 0 [⟨.xr, 0⟩, ⟨.rev, 1⟩, cW 1], .gc 0 [xrLive [1]]]
 def schedD3 : List (Nat × Choice) :=
   rep 0 3 ++ rep 1 13 ++ rep 2 4 ++ [(2, { perm := [⟨.xr, 0⟩, ⟨.rev, 1⟩] })] ++ rep 2 10
 
@@ -317,13 +343,13 @@ theorem restart_not_guaranteed_when_informer_shared_witness :
 /-- a reachable state of the fixed engine with two controllers, three live registrations on
 two informers, after a concurrent mix of calls -/
 example : ∃ s, Reachable Cfg.fixed
-    [.start 0, .start 1, .startWatches 0 [⟨.xr, 0⟩, cW 1], .startWatches 1 [cW 1], .gc 0 [1]] s ∧
+    [.start 0, .start 1, .startWatches 0 [⟨.xr, 0⟩, cW 1], .startWatches 1 [cW 1], .gc 0 [xrLive [1]]] s ∧
     s.regs.length = 3 ∧ s.ctrls.length = 2 := by
-  have hrun : (runSched Cfg.fixed (init [.start 0, .start 1, .startWatches 0 [⟨.xr, 0⟩, cW 1], .startWatches 1 [cW 1], .gc 0 [1]])
+  have hrun : (runSched Cfg.fixed (init [.start 0, .start 1, .startWatches 0 [⟨.xr, 0⟩, cW 1], .startWatches 1 [cW 1], .gc 0 [xrLive [1]]])
       (rep 0 3 ++ rep 1 3 ++ rep 2 12 ++ rep 3 10 ++ rep 4 5)).isSome = true := by decide
   obtain ⟨s, hs⟩ := Option.isSome_iff_exists.1 hrun
   refine ⟨s, reachable_of_runSched .init hs, ?_⟩
-  have hst : (runSched Cfg.fixed (init [.start 0, .start 1, .startWatches 0 [⟨.xr, 0⟩, cW 1], .startWatches 1 [cW 1], .gc 0 [1]])
+  have hst : (runSched Cfg.fixed (init [.start 0, .start 1, .startWatches 0 [⟨.xr, 0⟩, cW 1], .startWatches 1 [cW 1], .gc 0 [xrLive [1]]])
       (rep 0 3 ++ rep 1 3 ++ rep 2 12 ++ rep 3 10 ++ rep 4 5)).map (fun s => (s.regs.length, s.ctrls.length)) = some (3, 2) := by decide
   rw [hs] at hst
   simpa using hst
@@ -336,6 +362,16 @@ example : (runSched Cfg.fixed
       (rep 0 3 ++ rep 1 12 ++ rep 2 1 ++ rep 3 12)).map
     (fun s => (s.regs.map (fun r => (r.wid, r.gen)), s.threads.map (·.pc))) =
     some ([(cW 0, 1), (⟨.xr, 0⟩, 1)], [.done .ok, .done .ok, .done .ok, .done .ok]) := by decide
+
+/-- the collector with a deleting, paused, unready XR that alone references kind 0, a live XR
+referencing version 2 of kind 1 (kind number 1001) and a malformed reference: the watch on kind
+0 is kept, the watch on (version 1 of) kind 1 is stopped, the XR watch is kept -/
+example : (runSched Cfg.fixed
+      (init [.start 0, .startWatches 0 [⟨.xr, 7⟩, cW 0, cW 1],
+             .gc 0 [⟨true, true, false, false, false, [some 0, some 0]⟩, ⟨false, false, true, true, true, [some 1001, none]⟩]])
+      (rep 0 3 ++ rep 1 14 ++ rep 2 4 ++ [(2, { perm := [cW 1] })] ++ rep 2 8)).map
+    (fun s => ((srcsOf s 0).map (·.1), s.threads.map (·.pc))) =
+    some ([cW 0, ⟨.xr, 7⟩], [.done .ok, .done .ok, .done (.count 1 true)]) := by decide
 
 /-- the D2 schedule is not a run of the fixed engine's model at all: the second call re-reads the
 active informers under the lock, finds the kind active, and does not start a second source -/
